@@ -36,3 +36,4 @@ def run(ctx):
     fz.thresholds_homogeneous(ctx)
     fz.noise_test_reference_global(ctx)
     fz.interrupted_extension_advertises_nothing(ctx)
+    fz.projection_coefficient_orientation(ctx)
